@@ -367,9 +367,33 @@ def gen_addr_family(rng):
     return link_variant(rng, case, 0.3)
 
 
+def gen_readdress_family(rng):
+    """seeded C07-w3-seed3: the LAST service registered under a host name is unregistered (its goodbye has to withdraw the address
+    records too), and 1-60 s later -- inside the 120 s the old address record would live -- the same instance, or another instance on
+    that host name, is registered with another address; the lookup from the second Added must not resolve the old address"""
+    nh = rng.choice([2, 3])
+    two = rng.random() < 0.4
+    svcs = [{"owner": 0, "ty": 0}] + ([{"owner": 0, "ty": 0}] if two else [])
+    if rng.random() < 0.3:
+        for sv in svcs:
+            sv["ip"] = "dual"
+    t1 = rng.randint(200, 800)
+    tu = t1 + rng.choice([1500, 3000, rng.randint(1200, 6000)])
+    tr = tu + rng.choice([1000, 1300, 5000, 20000, 60000, rng.randint(1000, 60000)])
+    ops = [[rng.choice([0, 100]), "browse", 1, 0], [t1, "register", 0], [tu, "unregister", 0], [tr, "register", 1 if two else 0, {"addr": 1}]]
+    if nh == 3:
+        ops.append([tr + rng.choice([-500, 2000, 8000]), "browse", 2, 0])
+    ops.sort(key=lambda o: (o[0], o[1]))
+    case = {"simseed": rng.randrange(1 << 30), "hosts": [{"up": 0} for _ in range(nh)], "types": 1, "svcs": svcs, "ops": ops, "family": "re-address",
+            "net": {"seed": rng.randrange(1 << 30), "mode": rng.choice(["uniform", "extreme", "mixed"]), "drop": None, "dups": rng.choice(["none", "some"])}}
+    return link_variant(rng, case, 0.3)
+
+
 def gen_case(rng, idx=0, long_p=0.05):
     if idx == 6 or (idx > 6 and rng.random() < 0.02):
         return gen_unreg_close_family(rng)
+    if idx == 14 or (idx > 14 and rng.random() < 0.02):
+        return gen_readdress_family(rng)
     if idx == 13 or (idx > 13 and rng.random() < 0.02):
         return gen_addr_family(rng)
     if idx in (7, 8, 9) or (idx > 9 and rng.random() < 0.08):
@@ -857,6 +881,8 @@ def run_case(case, proj=False):
                 skipped.append(op)
                 return
             ver = len(versions[i])
+            if len(op) > 3 and isinstance(op[3], dict):  # [t, "register", i, {"addr": k}]: registered (again) with another address
+                svcs[i].update(op[3])
             if cur_info[i] is not None and svcs[i].get("reuse"):
                 # the application registers the SAME ServiceInfo object again after changing a plain attribute: the records the
                 # object cached for its previous registration must not be what it announces and answers with now
@@ -1546,8 +1572,9 @@ def oracle(case, obs):
         # (third review, escape mE: of the looked-up service's OWN versions only those acceptable while the lookup runs count -- an
         # address it has moved away from is a wrong answer; what other services ever advertised under the host name still counts:
         # an unregistered service does not withdraw addresses its host shares, and their timing is not this lookup's business)
-        host_addrs = {ad for x in vs for ad in x["addrs"]} | {
-            ad for i, vv in enumerate(obs["versions"]) if i != s for x in vv if x["server"].lower() == (lk["server"] or "").lower() for ad in x["addrs"]}
+        # ... unless they were WITHDRAWN since: the goodbye of the last service registered under a host name carries that service's
+        # address records with TTL 0 (coordinator, seeded C07-w3-seed3) -- from then on they are not advertised under the name
+        host_addrs = {ad for x in vs for ad in x["addrs"]} | advertised_by_others(case, obs, s, (lk["server"] or "").lower(), lk["t1"])
         if not any(x["port"] == lk["port"] and x["server"] == lk["server"] and x["txt"] == lk["txt"]
                    and set(x["addrs"]) <= set(lk["addrs"]) <= host_addrs for x in vs):
             cause = lookup_wrong_cause(case, obs, lk, vs, allv)
@@ -1613,6 +1640,35 @@ def shadow_cache(obs, host, name, t_hi):
     return {key: v[0] for key, v in cache.items() if v[1] > t_hi}
 
 
+def advertised_by_others(case, obs, s, server, t_hi):
+    """addresses that services other than s advertised under host name `server` up to t_hi and that have not been withdrawn since:
+    an unregister (explicit, or by the close) of a service at a moment when no other service is registered under that host name sends
+    that service's addresses with TTL 0"""
+    evs = []  # (t, order, kind, svc, addrs)
+    for i, vv in enumerate(obs["versions"]):
+        for x in vv:
+            if x["server"].lower() == server and x["t"] <= t_hi:
+                evs.append((x["t"], 1, "adv", i, tuple(x["addrs"])))
+    for e in obs["trace"]:
+        if e[1] == "unreg" and e[0] <= t_hi:
+            evs.append((e[0], 0, "unreg", e[2], ()))
+    evs.sort()
+    cur = {}  # registered services under the name -> current addresses
+    known = {}  # address -> services (other than s) that advertised it and whose advertisement has not been withdrawn
+    for t, _o, kind, i, addrs in evs:
+        if kind == "adv":
+            cur[i] = addrs
+            if i != s:
+                for ad in addrs:
+                    known.setdefault(ad, set()).add(i)
+        elif i in cur:
+            mine = cur.pop(i)
+            if not cur:  # the last one under the name: its goodbye withdraws its addresses
+                for ad in mine:
+                    known.pop(ad, None)
+    return set(known)
+
+
 def shadow_addresses(obs, host, server, t_hi):
     """`shadow_cache` for the address records of host name `server`: {address hex: last received} of the records alive in `host`'s
     cache at t_hi by the cache rules applied to the deliveries its listener PROCESSED (flush per record type A / AAAA)"""
@@ -1641,7 +1697,9 @@ def shadow_addresses(obs, host, server, t_hi):
             for key, v in cache.items():
                 if key[0] == kind and key not in present and t - v[0] > 1000:
                     v[0], v[1] = t, t + 1000
-    return {key[1]: v[0] for key, v in cache.items() if v[1] > t_hi}
+                    v.append("flushed")
+    # (F5's class: a record the flush rule could NOT touch; one that is merely inside its last second after a flush is not in it)
+    return {key[1]: v[0] for key, v in cache.items() if v[1] > t_hi and len(v) == 2}
 
 
 def lookup_wrong_cause(case, obs, lk, vs, allv):
@@ -1656,6 +1714,35 @@ def lookup_wrong_cause(case, obs, lk, vs, allv):
 
     bh = obs["browsers"][lk["b"]]["host"]
     name = svc_name(lk["s"], case["svcs"][lk["s"]]["ty"]).lower()
+    fewer = [x for x in vs if x["port"] == lk["port"] and x["server"] == lk["server"] and x["txt"] == lk["txt"] and lk["addrs"]
+             and set(lk["addrs"]) < set(x["addrs"])]
+    if fewer:
+        # the advertised version, but an address of it is missing.  Known finding F6 when the input shows the race: ANOTHER service
+        # under the same host name was unregistered while this one was still probing (so it was the last one registered under the
+        # name and its goodbye, built once, carries the shared address with TTL 0), this one then announced the address, and the
+        # goodbye's repeats (+125, +250 ms) withdrew it again at the host; the next announcement heals it
+        from zeroconf import DNSIncoming
+        from zeroconf._dns import DNSAddress
+
+        si = lk["s"]
+        owner = case["svcs"][si]["owner"]
+        missing = set(fewer[-1]["addrs"]) - set(lk["addrs"])
+        regs = [e for e in obs["trace"] if e[1] == "reg" and e[2] == si and e[0] <= lk["t1"]]
+        racing = [u for u in obs["trace"] if u[1] == "unreg" and u[2] != si and case["svcs"][u[2]]["owner"] == owner
+                  and any(r[0] <= u[0] <= (r[3] if len(r) > 3 else r[0] + 350) for r in regs)]
+        if racing:
+            last = {}
+            ign = {x[0] for x in obs.get("ignored", [])}
+            for pos, e in enumerate(obs["trace"]):
+                if e[1] == "dlv" and e[4] == bh and e[0] <= lk["t1"] and pos not in ign:
+                    m = DNSIncoming(bytes.fromhex(obs["datagrams"][e[2]][4]))
+                    if m.valid and not m.is_query():
+                        for r in m.answers():
+                            if isinstance(r, DNSAddress) and r.name.lower() == (lk["server"] or "").lower():
+                                last[r.address.hex()] = (r.ttl, obs["datagrams"][e[2]][0])
+            if all(ad in last and last[ad][0] == 0 and any(u[0] <= last[ad][1] <= u[0] + 250 for u in racing) for ad in missing):
+                return "address-withdrawn-by-the-goodbye-of-a-service-unregistered-while-this-one-was-probing"
+        return ""
     cur_ok = [x for x in vs if x["port"] == lk["port"] and x["server"] == lk["server"] and x["txt"] == lk["txt"] and set(x["addrs"]) <= set(lk["addrs"])]
     if cur_ok:
         # everything is the advertised version's except that addresses the service has moved away from are still returned.  Known
@@ -1940,7 +2027,8 @@ def resurrection_cause(case, obs, s, host=None):
 KNOWN_SIGS = {"C07:goodbyes-cut-by-close", "C07:not-removed:goodbyes-cut-by-close", "C07:lookup-from-added-wrong:success-without-txt",
               "C07:not-added:type-spelled-in-another-case", "C07:lookup-from-added-wrong:last-inserted-record-preferred-to-the-most-recently-received",
               "C07:not-removed:goodbye-repeats-ignored-by-the-other-sockets-duplicate-guard",
-              "C07:lookup-from-added-wrong:withdrawn-address-outlives-the-flush-rule"}
+              "C07:lookup-from-added-wrong:withdrawn-address-outlives-the-flush-rule",
+              "C07:lookup-from-added-wrong:address-withdrawn-by-the-goodbye-of-a-service-unregistered-while-this-one-was-probing"}
 
 
 def train_of(obs, t, h, dst_of=None):
